@@ -1,3 +1,4 @@
+mod allocp;
 mod conc;
 mod crash;
 mod determinism;
@@ -27,6 +28,9 @@ mod snapshot;
 mod world;
 
 use std::io::{BufRead, Write};
+
+#[global_allocator]
+static ALLOCATOR: allocp::Probe = allocp::Probe;
 
 fn usage() -> i32 {
     eprintln!("usage: sim check <Cxx> <quick|thorough> | run <Cxx> <seed> | replay <file> | worker <Cxx> | minimize <Cxx> <seed> <oracle> <tag> <out> | dump-case <Cxx> <seed> <out> | determinism <Cxx> <n>");
